@@ -167,7 +167,7 @@ type Frame struct {
 	innerDone   map[*ssa.BasicBlock]bool
 	unrolling   *loop
 	pendingBack []predEdge
-	escapeAt    map[ssa.Instruction][]*ssa.Alloc
+	escapeAt    map[ssa.Instruction][]ssa.Value
 	pendingOuts []copyBack
 	kindOrd     map[string]map[ssa.Instruction]int
 }
@@ -1686,6 +1686,16 @@ func collectEscapes(v ssa.Value, seen map[ssa.Value]bool, out *[]ssa.Instruction
 			if !closureKeepsPrivate(u, v) {
 				*out = append(*out, r)
 			}
+		case *ssa.MapUpdate:
+			if u.Map != v || u.Key == v || u.Value == v {
+				*out = append(*out, r)
+			}
+		case *ssa.Lookup:
+			if u.X != v || u.Index == v {
+				*out = append(*out, r)
+			}
+		case *ssa.Range:
+			// the iterator yields copies of keys and elements, never the map itself
 		default:
 			*out = append(*out, r)
 		}
@@ -1747,21 +1757,28 @@ func closureKeepsPrivate(mc *ssa.MakeClosure, v ssa.Value) bool {
 
 type privRef struct {
 	t  Term
-	a  *ssa.Alloc
+	a  ssa.Value // *ssa.Alloc or *ssa.MakeMap (nil: never escapes)
 	fr *Frame
 }
 
 // escapesAt computes, per instruction, the allocations that stop being private there.
-func escapesAt(fn *ssa.Function) map[ssa.Instruction][]*ssa.Alloc {
-	out := map[ssa.Instruction][]*ssa.Alloc{}
+func escapesAt(fn *ssa.Function) map[ssa.Instruction][]ssa.Value {
+	out := map[ssa.Instruction][]ssa.Value{}
 	for _, b := range fn.Blocks {
 		for _, in := range b.Instrs {
-			a, ok := in.(*ssa.Alloc)
-			if !ok {
+			var a ssa.Value
+			switch x := in.(type) {
+			case *ssa.Alloc:
+				a = x
+			case *ssa.MakeMap:
+				// a map made here is private in the same sense: until the map value itself flows
+				// anywhere but a local variable, an update, a lookup, a range or len
+				a = x
+			default:
 				continue
 			}
 			var esc []ssa.Instruction
-			collectEscapes(a, map[ssa.Value]bool{}, &esc, a)
+			collectEscapes(a, map[ssa.Value]bool{}, &esc, in)
 			for _, e := range esc {
 				out[e] = append(out[e], a)
 			}
@@ -1779,7 +1796,7 @@ func (fr *Frame) markEscaped(in ssa.Instruction) {
 	var keep []privRef
 	for _, p := range fr.c.privateRefs {
 		esc := false
-		if p.fr == fr {
+		if p.fr == fr && p.a != nil {
 			for _, a := range allocs {
 				if a == p.a {
 					esc = true
